@@ -171,6 +171,20 @@ def chunkings(rng, data, how):
     return ",".join(hx(p) for p in parts)
 
 
+OUTPUT_OPS = ["@sz.10.5", "@sz.80.24", "@sz.1.1", "@we", "@mv.1.1", "@er", "@hc"]
+
+
+def with_ops(rng, run, p=0.4):
+    """the same run with output-side operations on the same terminal (a resize notification, drawing) between deliveries:
+    the decoder must not notice them"""
+    out = []
+    for c in run.split(","):
+        out.append(c)
+        if rng.random() < p:
+            out.append(rng.choice(OUTPUT_OPS))
+    return ",".join(out)
+
+
 def c05_cfg(items):
     return "C05 " + " ".join(item_word(i) for i in items)
 
@@ -363,7 +377,8 @@ def hist_case(rng, n, tag):
     # the whole stream arrives in one delivery, segment by segment, or segment by segment from a channel that already
     # holds the deliveries and completes every read synchronously (run marked `!`)
     first = rng.choice([hx(whole), ",".join(hx(s_) for s_ in segs), "!" + ",".join(hx(s_) for s_ in segs), "!!" + ",".join(hx(s_) for s_ in segs)])
-    line = "I " + " / ".join([first] + [hx(s_) for s_ in segs])
+    # one case in three keeps all the runs alive at once and takes their deliveries in turn (kind `J`)
+    line = rng.choice(["I ", "I ", "J "]) + " / ".join([first] + [hx(s_) for s_ in segs])
     return line, ["HIST " + tag]
 
 
@@ -407,6 +422,36 @@ def numeric_sweep(prop="C05"):
             for sq in seqs:
                 cs.append(Case("I " + hx(sq + b"@@"), sweep="numeric-boundaries", oracle=(prop == "C20"), cfgs=["C20"] if prop == "C20" else None,
                                tag="numeric-boundary"))
+    return cs
+
+
+def parameter_shape_sweep(tier, prop="C05"):
+    """every first parameter 0..70 (and a few beyond) with every SHAPE of the parameter list - one, two, three, four
+    parameters, empty ones included - before every final byte that has a meaning for the decoder (all of 0x40..0x7E in the
+    thorough tier): a new case in a key table that indexes a parameter the sequence does not have"""
+    cs = []
+    firsts = list(range(0, 71)) + [99, 100, 127, 128, 200, 255, 256]
+    finals = bytes(range(0x40, 0x7F)) if tier == "thorough" else b"~ABCDEFHPQRSZ@u"
+    shapes = [b"%d", b"%d;", b"%d;5", b"%d;5;", b"%d;5;65", b"%d;;", b"%d;;;", b";%d", b"%d;%d"]
+    for fin in finals:
+        for n in firsts:
+            for sh in shapes:
+                body = sh.replace(b"%d", str(n).encode())
+                for intro in ((b"\x1b[", b"\x9b", b"\x1b\x1b[") if (tier == "thorough" or fin in b"~A") else (b"\x1b[",)):
+                    sq = intro + body + bytes([fin])
+                    cs.append(Case("I " + hx(sq + b"@@"), sweep="parameter-shapes", oracle=(prop == "C20"),
+                                   cfgs=["C20"] if prop == "C20" else None, tag="parameter-shape"))
+    # three parameters: key-like first, modifier-like second, and a third that looks like a key CODE (the values of the
+    # abstract keys 128..150 and their neighbours included) - `CSI 27 ; 5 ; 133 ~` must not become Ins
+    thirds = [0, 1, 13, 27, 65, 126, 127, 128, 129, 133, 138, 139, 144, 150, 151, 255, 256, 65536 + 133]
+    for fin in (b"~u" if tier != "thorough" else b"~uABHZP"):
+        for n in list(range(0, 41)) + [127, 128, 255]:
+            for m in (b"5", b"2", b""):
+                for t in thirds:
+                    for intro in ((b"\x1b[",) if tier != "thorough" else (b"\x1b[", b"\x9b", b"\x1b\x1b[")):
+                        sq = intro + str(n).encode() + b";" + m + b";" + str(t).encode() + bytes([fin])
+                        cs.append(Case("I " + hx(sq + b"@@"), sweep="parameter-shapes-3", oracle=(prop == "C20"),
+                                       cfgs=["C20"] if prop == "C20" else None, tag="parameter-shape"))
     return cs
 
 
